@@ -1792,6 +1792,7 @@ int tls_recv(TLS_CONNECT *conn, uint8_t *out, size_t outlen, size_t *recvlen)
 		case TLS_record_application_data:
 			break;
 		case TLS_record_change_cipher_spec:
+			conn->datalen = 0;
 			error_print();
 			return -1;
 		case TLS_record_alert:
@@ -1799,6 +1800,7 @@ int tls_recv(TLS_CONNECT *conn, uint8_t *out, size_t outlen, size_t *recvlen)
 			// should call tls_process_alert()
 			int level;
 			int alert;
+			conn->datalen = 0;
 			if (tls_record_get_alert(conn->databuf, &level, &alert) != 1) {
 				error_print();
 				return -1;
@@ -1811,6 +1813,7 @@ int tls_recv(TLS_CONNECT *conn, uint8_t *out, size_t outlen, size_t *recvlen)
 			return -1;
 			}
 		default:
+			conn->datalen = 0;
 			error_print();
 			return -1;
 		}
